@@ -2345,9 +2345,9 @@ class Parameters:
                     # A watcher waiting for the end of a batch hands its
                     # place in the queue over to the watcher replacing it
                     # below, so that the method still runs exactly once
-                    queued = wobj.param._state_watchers
-                    if any(w is q for q in queued):
-                        wobj.param._state_watchers = [q for q in queued if q is not w]
+                    waiting = wobj.param._state_watchers
+                    if any(w is q for q in waiting):
+                        wobj.param._state_watchers = [q for q in waiting if q is not w]
                         requeue.append(wobj)
             else:
                 continue
